@@ -304,5 +304,18 @@ func TestGrid(t *testing.T) {
 			checker.Run(t, Case{Words: w, Style: "grid"})
 		}
 	}
+	// a few very large bitmaps in every run (ranks above 2^16 / 2^22; size thresholds of any fast path)
+	if shard == 0 {
+		for style := 0; style <= 5; style++ {
+			for _, n := range []int{65536, 65537, 70001} {
+				spec := gen.BigSpec{N: n, Key: uint64(1000*style + n), Style: style}
+				var probes []int32
+				for i := 0; i < 600; i++ {
+					probes = append(probes, int32(vk.Mix(uint64(i)+spec.Key)%uint64(64*n)))
+				}
+				checker.Run(t, Case{Big: &spec, Style: "grid-big", Probes: probes})
+			}
+		}
+	}
 	vk.MarkExhaustive("all bitmaps of 0.." + fmtInt(int64(maxLen)) + " words over a 12-word palette x all positions")
 }
